@@ -5,32 +5,30 @@ import (
 	"testing"
 
 	"verifharness/sgc"
+
+	"github.com/sdcio/yang-parser/data/encoding"
+	"github.com/sdcio/yang-parser/schema"
 )
 
-func comp(label string, names, texts []string) {
-	res := sgc.CompileTexts(names, texts, sgc.Opts{Features: sgc.AllFeatures{}})
-	fmt.Println(label, "=>", res.Describe(), "parseErr:", res.ParseErr)
-}
-
 func TestX(t *testing.T) {
-	m := `module m { namespace "urn:m"; prefix m; grouping g { leaf a { type string; } container c; list l { key k; leaf k { type string; } } } container top { uses g { %s } } }`
-	for _, r := range []string{
-		`refine a { type string; }`, `refine a { key "x"; }`, `refine a { units "u"; }`, `refine a { status deprecated; }`, `refine a { when "1"; }`, `refine a { if-feature f; }`,
-		`refine a { leaf z { type string; } }`, `refine a { presence "x"; }`, `refine c { default "x"; }`, `refine c { mandatory true; }`, `refine a { min-elements 1; }`, `refine l { presence "p"; }`,
-		`refine a { description "d"; description "e"; }`, `refine a { default "x"; default "y"; }`, `refine a { config false; config true; }`, `refine a { mandatory true; mandatory false; }`,
-		`refine c { presence "a"; presence "b"; }`, `refine l { min-elements 1; min-elements 2; }`, `refine a { reference "r"; reference "s"; }`, `refine a { must "1"; must "2"; }`,
-	} {
-		comp(r, []string{"m"}, []string{fmt.Sprintf(m, r)})
+	m0 := `module m0 { namespace "urn:verif:m0"; prefix m0; identity b0; identity d1 { base b0; } identity d2 { base d1; } container m0-top { leaf-list ll2 { type identityref { base b0; } } } }`
+	m1 := `module m1 { namespace "urn:verif:m1"; prefix m1; import m0 { prefix m0; } identity e1 { base m0:d1; } identity d2 { base m0:b0; } }`
+	res := sgc.CompileTexts([]string{"m0", "m1"}, []string{m0, m1}, sgc.Opts{Features: sgc.AllFeatures{}})
+	fmt.Println(res.Describe())
+	n := res.MS.Child("m0-top").Child("ll2")
+	for _, id := range n.Type().(schema.Identityref).Identities() {
+		fmt.Printf("%+v\n", *id)
 	}
-	b := `module b { namespace "urn:b"; prefix b; container top { leaf a { type string; } leaf-list ll { type string; } list l { key k; leaf k { type string; } leaf v { type string; } } } }`
-	d := `module d { namespace "urn:d"; prefix d; import b { prefix b; } deviation /b:top/b:%s { %s } }`
-	for _, r := range [][2]string{
-		{"a", `deviate not-supported { type string; }`}, {"a", `deviate not-supported { description "x"; }`}, {"a", `deviate add { description "x"; }`}, {"a", `deviate add { type string; }`},
-		{"a", `deviate add { status deprecated; }`}, {"a", `deviate delete { type string; }`}, {"a", `deviate delete { config false; }`}, {"a", `deviate delete { mandatory true; }`},
-		{"a", `deviate replace { must "1"; }`}, {"l", `deviate replace { unique "v"; }`}, {"a", `deviate replace { description "x"; }`}, {"a", `deviate add { leaf z { type string; } }`},
-		{"a", `deviate add { units "u"; units "v"; }`}, {"a", `deviate add { default "u"; default "v"; }`}, {"a", `deviate replace { type string; type int8; }`}, {"ll", `deviate add { min-elements 1; min-elements 2; }`},
-		{"a", `deviate delete { units "u"; units "v"; }`}, {"a", `deviate add { config false; config false; }`},
+	for _, doc := range []string{
+		`<root><m0-top xmlns="urn:verif:m0"><ll2 xmlns="urn:verif:m0" xmlns:m1="urn:verif:m1">m1:d2</ll2></m0-top></root>`,
+		`<root><m0-top xmlns="urn:verif:m0"><ll2 xmlns="urn:verif:m0" xmlns:m0="urn:verif:m1" xmlns:m1="urn:verif:m0">m0:d2</ll2></m0-top></root>`,
+		`<root><m0-top xmlns="urn:verif:m0"><ll2 xmlns="urn:verif:m0" xmlns:q="urn:verif:m1">q:d2</ll2></m0-top></root>`,
 	} {
-		comp(r[0]+": "+r[1], []string{"b", "d"}, []string{b, fmt.Sprintf(d, r[0], r[1])})
+		dn, err := encoding.NewUnmarshaller(encoding.XML).SetValidation(schema.ValidateAll).Unmarshal(res.MS, []byte(doc))
+		if err != nil {
+			fmt.Println("err", err)
+			continue
+		}
+		fmt.Println(string(encoding.ToRFC7951(res.MS, dn)))
 	}
 }
